@@ -256,18 +256,18 @@ func registerProg(sp *progSpec, technique, rule string, quick, thorough, minDist
 }
 
 func init() {
-	const ruleCommon = "each case is a generated template set (every action renders unique tokens) executed by the real engine and by the reference evaluator; oracle: identical output, error/no error, call log of probe functions and caller VarMap afterwards; "
+	const ruleCommon = "each case is a generated template set (every action renders unique tokens) executed by the real engine and by the reference evaluator; oracle: identical output, error/no error, call log of probe functions and caller VarMap afterwards; multi-file sets are then run again as a sequence of 2-5 entry points (main, layouts, libraries, include targets) on ONE Set, each compared with the evaluator run for that entry alone; "
 	registerProg(c05, "reference-evaluator output monitor over generated if/range programs (all rangeable kinds, all variable forms, condition values of every kind)",
 		ruleCommon+"programs nest if/else-if/else (with and without 'x := e;') and range (zero-, one-, two-variable forms, := and =, else branches) to depth 4 over typed/interface/nil/empty slices, arrays, pointers to slices, single-entry and empty maps, closed channels, ints(a,b), index-providing and index-less custom Rangers; "+
 			"conditions are bools, ints, strings, nil, collections, isset(), comparisons and 42 opaque conditions with known truthiness (floats incl. fractional and zero, narrow ints, uints, nil/non-nil pointers, interfaces holding false/0/\"\"/nil/0.25, logical forms); "+
-			"non-trivial = if and range both present, or an opaque-kind condition, else-if chain or range-else; distinct by feature set", 25000, 1500000, 300)
+			"non-trivial = if and range both present, or an opaque-kind condition, else-if chain or range-else; plus 120 directed histories executing the same range statements (one Set) over 17 subject kinds of changing kind, incl. Rangers of slice/chan/map kind and Rangers yielding nothing; distinct by feature set", 25000, 1500000, 300)
 	registerProg(c07, "reference-evaluator output monitor over generated scoping programs; caller VarMap inspected after Execute",
 		ruleCommon+"programs mix :=, =, multi-assignment and discard at every depth of if (with let), range (all forms), block, yield with parameters/content and include; the same name is planted in the VarMap, the globals and the built-ins and shadowed locally; loop variables of every ranger kind are captured into outer variables and read after the loop; "+
-			"'.' is printed before, inside and after every construct that may rebind it; plus 60 directed capture cases (multi-entry maps etc.) checked by self-consistency; non-trivial = capture, shadowing, '=', if-let or an explicit context present; distinct by feature set", 25000, 1500000, 300)
+			"'.' is printed before, inside and after every construct that may rebind it; isset(exec/includeIfExists(failing template, ctx).x) statements swallow a failure half-way through a context switch; plus 72 directed capture cases (multi-entry maps etc.) checked by self-consistency and 60 rebinding histories (one Set; the name of a built-in rebound in the VarMap and the Set globals between executions, 12 call-site shapes: each must call what the name resolves to now); non-trivial = capture, shadowing, '=', if-let or an explicit context present; distinct by feature set", 25000, 1500000, 300)
 	registerProg(c08, "reference-evaluator output monitor over generated template sets with extends chains and import lists",
 		ruleCommon+"sets have extends chains of depth 0-3, 0-3 library templates imported by any level (libraries import/extend each other), 5 block names shared by all files (parameters with defaults, explicit contexts, content-using blocks with default content), yields with named arguments in random order and omissions, "+
 			"yields nested in range/if/content, content bodies reading caller variables that the block shadows; non-trivial = a block name is defined in >=2 files and is yielded or has a definition site; distinct by feature set", 20000, 800000, 300)
 	registerProg(c13, "reference-evaluator output monitor over generated try/catch programs with failures planted below state-changing constructs",
 		ruleCommon+"try bodies contain failing actions (unknown identifier, bad operand, assignment to undeclared variable, unresolved block, two-variable range over an index-less ranger) at depth <=4 below range (context rebound), if-let, yield with parameters/content, include and inner try, with/without catch and catch variable; "+
-			"after every try the program prints '.', variables, isset() of names declared inside, and yields content again; non-trivial = try + failure + a state-changing construct; distinct by feature set", 25000, 1500000, 300)
+			"a third of the value sites go through a SafeWriter (raw/unsafe); after every try the program prints '.', variables, isset() of names declared inside, and yields content again; 10 directed cases with a catch body executing return (prefix-tolerant: if rendering goes on, the catch variable is gone and variables and '.' are as before); non-trivial = try + failure + a state-changing construct; distinct by feature set", 25000, 1500000, 300)
 }
